@@ -362,7 +362,14 @@ def same_target_sequences(ctx, db, aff):
                         elif how == "Quantity(fixed unit)":
                             got = FractionScalar.ConvertFractionValue(fv, ObtainQuantity(fixed), u, v)
                         elif how == "FractionScalar.GetValue":
-                            got = FractionScalar(fv, u).GetValue(v)
+                            fs_ = FractionScalar(fv, u)
+                            first = fs_.GetValue(v)
+                            # what was handed out is the caller's: scribbling on it changes nothing the scalar tells next
+                            try:
+                                first.number = 777.0
+                            except Exception:
+                                pass
+                            got = fs_.GetValue(v)
                         else:
                             got = db.Convert(qt, u, v, fv)
                     except Exception as e:
